@@ -192,8 +192,9 @@ pub fn decode_regular(rsm: RawSourceMap) -> Result<SourceMap> {
                 if nums.len() != 4 && nums.len() != 5 {
                     fail!(Error::BadSegmentSize(nums.len() as u32));
                 }
-                src_id = (i64::from(src_id) + nums[1]) as u32;
-                if src_id >= sources.len() as u32 {
+                let new_src_id = i64::from(src_id) + nums[1];
+                src_id = new_src_id as u32;
+                if new_src_id < 0 || new_src_id >= sources.len() as i64 {
                     fail!(Error::BadSourceReference(src_id));
                 }
 
@@ -202,8 +203,9 @@ pub fn decode_regular(rsm: RawSourceMap) -> Result<SourceMap> {
                 src_col = (i64::from(src_col) + nums[3]) as u32;
 
                 if nums.len() > 4 {
-                    name_id = (i64::from(name_id) + nums[4]) as u32;
-                    if name_id >= names.len() as u32 {
+                    let new_name_id = i64::from(name_id) + nums[4];
+                    name_id = new_name_id as u32;
+                    if new_name_id < 0 || new_name_id >= names.len() as i64 {
                         fail!(Error::BadNameReference(name_id));
                     }
                     name = name_id;
